@@ -693,25 +693,46 @@ impl Generator {
         for _ in 0..nops {
             if rng.pct(1) || (ops.is_empty() && rng.pct(4)) {
                 // decode another (possibly truncated) file on the same thread
-                let pool = if rng.pct(70) { &self.containers } else { &self.small };
-                if !pool.is_empty() {
-                    let font = rng.pick(pool).clone();
-                    let len = std::fs::metadata(format!("{}/{}", self.root, font))
-                        .map(|m| m.len() as usize)
-                        .unwrap_or(0);
+                let compressed: Vec<&String> = self
+                    .containers
+                    .iter()
+                    .filter(|c| c.ends_with(".woff2") || c.ends_with(".woff"))
+                    .collect();
+                let font = if !compressed.is_empty() && rng.pct(75) {
+                    (*rng.pick(&compressed)).clone()
+                } else if !self.containers.is_empty() && rng.pct(60) {
+                    rng.pick(&self.containers).clone()
+                } else {
+                    rng.pick(&self.small).clone()
+                };
+                let len = std::fs::metadata(format!("{}/{}", self.root, font))
+                    .map(|m| m.len() as usize)
+                    .unwrap_or(0);
+                let index = if rng.pct(85) { 0 } else { rng.usize_below(4) };
+                if rng.pct(60) && len > 64 {
+                    // fail-then-retry: a decode that breaks off inside the compressed data,
+                    // followed by a decode of the intact file
+                    let cut = len - 1 - rng.usize_below(len / 2);
+                    ops.push(Op::Decoy {
+                        font: font.clone(),
+                        index,
+                        cut: Some(cut),
+                    });
+                    ops.push(Op::Decoy {
+                        font,
+                        index,
+                        cut: None,
+                    });
+                } else {
                     let cut = match rng.below(5) {
                         0 | 1 => None,
                         2 => Some(len / 2),
                         3 => Some(len.saturating_sub(1 + rng.usize_below(64))),
                         _ => Some(rng.usize_below(len.max(1))),
                     };
-                    ops.push(Op::Decoy {
-                        font,
-                        index: if rng.pct(80) { 0 } else { rng.usize_below(4) },
-                        cut,
-                    });
-                    continue;
+                    ops.push(Op::Decoy { font, index, cut });
                 }
+                continue;
             }
             if !ops.is_empty() && rng.pct(55) {
                 // near-miss or exact repeat of an earlier op
